@@ -430,11 +430,19 @@ pub fn check_view(view: &str, o: &RawObs, t: &Truth, flavor: Flavor, ground_ids:
         }
     }
     if let Some(adj) = &o.adj {
+        let node_set: std::collections::BTreeSet<usize> = t.nodes.iter().copied().collect();
+        let mut pair_set: std::collections::BTreeSet<(usize, usize)> = std::collections::BTreeSet::new();
+        for e in &t.edges {
+            pair_set.insert((e.1, e.2));
+            if !t.directed {
+                pair_set.insert((e.2, e.1));
+            }
+        }
         for &(a, b, val) in adj {
-            if !(t.nodes.contains(&a) && t.nodes.contains(&b)) {
+            if !(node_set.contains(&a) && node_set.contains(&b)) {
                 continue;
             }
-            let exp = t.edges.iter().any(|e| (e.1 == a && e.2 == b) || (!t.directed && e.1 == b && e.2 == a));
+            let exp = pair_set.contains(&(a, b));
             ensure!("is_adjacent", val == exp, "is_adjacent({}, {}) = {} but the view {} an edge {}->{}", a, b, val, if exp { "has" } else { "has no" }, a, b);
         }
     }
